@@ -28,6 +28,7 @@ from placement import exception
 from placement.handlers import util as data_util
 from placement import microversion
 from placement.objects import allocation as alloc_obj
+from placement.objects import consumer as consumer_obj
 from placement.objects import resource_provider as rp_obj
 from placement.policies import allocation as policies
 from placement.schemas import allocation as schema
@@ -467,6 +468,11 @@ def _set_allocations_for_consumer(req, schema):
         data_util.update_consumers([consumer], {consumer_uuid: request_attr})
 
         alloc_obj.replace_all(ctx, allocation_objects)
+        if created_new_consumer:
+            # A consumer auto-created for a request that carried no
+            # allocations holds nothing: do not keep its record.
+            consumer_obj.delete_consumers_if_no_allocations(
+                ctx, [consumer_uuid])
         LOG.debug("Successfully wrote allocations %s", allocation_objects)
 
     def _create_allocations():
@@ -583,6 +589,10 @@ def set_allocations(req):
         data_util.update_consumers(consumers.values(), requested_attrs)
 
         alloc_obj.replace_all(ctx, allocations)
+        # A consumer auto-created for an entry that carried no allocations
+        # holds nothing: do not keep its record.
+        consumer_obj.delete_consumers_if_no_allocations(
+            ctx, [consumer.uuid for consumer in new_consumers_created])
         LOG.debug("Successfully wrote allocations %s", allocations)
 
     def _create_allocations():
